@@ -55,3 +55,16 @@ for seed, meta, res, rules in out:
     det = "; ".join(f"{p}:{','.join(rules[p])}" for p in hit_t + hit_o)
     print(f"{seed:12s} {status:17s} targets={','.join(targets):8s} {det[:150]}" + (f"  ERR:{errs} {rules[errs[0]]}" if errs else ""))
 print(f"caught by own property: {caught}/{len(out)}")
+if "--write-expect" in sys.argv:
+    exp = {"mutants": {}}
+    for seed, meta, res, rules in out:
+        e = {}
+        for p_ in allp:
+            if res.get(p_) == 1:
+                e[p_] = "caught"
+            elif p_ in meta["breaks"]:
+                e[p_] = "error" if res.get(p_) == 2 else "missed"
+        exp["mutants"][seed] = e
+    os.makedirs(f"{V}/selftest", exist_ok=True)
+    json.dump(exp, open(f"{V}/selftest/expect.json", "w"), indent=1, sort_keys=True)
+    print("wrote selftest/expect.json")
